@@ -365,7 +365,7 @@ def run(prop, tier, seed, jobs, proof, out):
     known_by_monitor = {}
     for k in kf:
         for m in k["monitors"]:
-            known_by_monitor[m] = k
+            known_by_monitor.setdefault(m, []).append(k)
         try:
             fails, _, _, _ = run_case(prop, k["witness"])
         except W.HarnessTimeout:
@@ -380,9 +380,9 @@ def run(prop, tier, seed, jobs, proof, out):
     attributed = collections.Counter()
     new_mons = []
     for f in mons:
-        k = known_by_monitor.get(f["monitor"])
-        if k is not None and trigger_holds(k, f):
-            attributed[k["id"]] += 1
+        ks = [k for k in known_by_monitor.get(f["monitor"], []) if trigger_holds(k, f)]
+        if ks:
+            attributed[ks[0]["id"]] += 1
         else:
             new_mons.append(f)
     reported = set()
@@ -495,8 +495,9 @@ def replay(prop, path, out, args):
     print(json.dumps(case, indent=1)[:4000])
     for f in fails:
         print(json.dumps({k: v for k, v in f.items() if k != "case"}, default=str)[:1500])
-    kf = {m: k for k in known_findings(prop) for m in k["monitors"]}
-    bad = [f for f in fails if not (f["kind"] == "monitor" and f["monitor"] in kf and trigger_holds(kf[f["monitor"]], f))]
+    kfs = known_findings(prop)
+    bad = [f for f in fails if not (f["kind"] == "monitor" and
+                                    any(f["monitor"] in k["monitors"] and trigger_holds(k, f) for k in kfs))]
     if bad:
         print(f"VIOLATION property={prop} replay={path}")
         return 1
